@@ -19,6 +19,7 @@ index readers, FAI, CRAM) are covered by the panic-site inventory + search only;
 notes/reports/C11.md.
 -/
 import Hts.Lemmas.Decoders
+import Hts.Lemmas.DecodersIndex
 namespace Hts.Props.C11
 open Hts.Model.Decoders
 open Hts.Model.Decoders.Outcome (ok err)
@@ -140,6 +141,31 @@ theorem aux_accessors_witness :
     (auxSweep [88, 0]).isPanic = true ∧ (auxSweep [88, 89, 66, 120, 0, 0, 0, 0]).isPanic = true ∧
     (auxSweep [88, 89, 66, 115, 2, 0, 0, 0, 1, 2]).isPanic = true := by decide
 
+/-! ### ITF-8 / LTF-8 -/
+
+/-- `itf8.Decode` and `ltf8.Decode` never index beyond the slice: the `len(b) < n` test dominates
+every `b[k]`, `k < n` (the values and round trips are C20's) -/
+theorem itf8_decode_total (b : Bytes) : (decodeIdx "itf8.Decode" itf8Width b).isPanic = false :=
+  decodeIdx_total _ _ b
+
+theorem ltf8_decode_total (b : Bytes) : (decodeIdx "ltf8.Decode" ltf8Width b).isPanic = false :=
+  decodeIdx_total _ _ b
+
+/-- the stream readers of cram (`errorReader.itf8`, `errorReader.ltf8`): `buf[1:n]` and `buf[:n]` stay
+inside the 5- resp. 9-byte array because the announced width is at most 5 resp. 9 -/
+theorem itf8_stream_total (s : Bytes) : (streamRead "cram.errorReader.itf8" itf8Width 5 s).isPanic = false :=
+  streamRead_total _ _ 5 s (fun b0 => by have := itf8Width_bounds b0; omega)
+
+theorem ltf8_stream_total (s : Bytes) : (streamRead "cram.errorReader.ltf8" ltf8Width 9 s).isPanic = false :=
+  streamRead_total _ _ 9 s (fun b0 => by have := ltf8Width_bounds b0; omega)
+
+/-! ### BAI reader -/
+
+/-- `bam.ReadIndex` (with `internal.ReadIndex`, `readIndices`, `readBins`, `readChunks`, `readStats`,
+`readIntervals`) never panics, for every byte string: every `make` is dominated by a sign test
+(repair fixes/C11-11) and `bins[:len(bins)-1]` is only reached with a non-empty `bins` -/
+theorem readBAI_total (s : Bytes) : (readBAI s).isPanic = false := readBAI_total' s
+
 /-! ### non-vacuity (tests) -/
 
 /-- a parser instance: decimal digits only -/
@@ -169,5 +195,14 @@ example : parseAuxBam [88, 0, 90, 1, 0] = err := by decide
 -- CIGAR operation types 11..15 (storable in BAM) go through End/Bin/IsValid
 example : Hts.Model.Coord.recordEnd false 100 [⟨0, 10⟩, ⟨13, 7⟩, ⟨2, 5⟩] = some 115 := by decide
 example : cigarIsValidGo [⟨5, 1⟩, ⟨4, 2⟩, ⟨0, 3⟩, ⟨4, 1⟩, ⟨5, 2⟩] 6 = ok true := by decide
+
+example : decodeIdx "itf8.Decode" itf8Width [0xff, 1, 2, 3, 4] = ok true := by decide
+example : decodeIdx "itf8.Decode" itf8Width [0xff, 1, 2, 3] = ok false := by decide
+example : streamRead "x" itf8Width 5 [0xe0, 1, 2, 3] = ok true := by decide
+
+-- "BAI\1", one reference, one bin (4681) with one chunk, one interval, no trailing count: 8+4+8+16+4+8 = 48 bytes
+example : readBAI ([66, 65, 73, 1, 1, 0, 0, 0, 1, 0, 0, 0, 0x49, 0x12, 0, 0, 1, 0, 0, 0] ++ List.replicate 16 0 ++
+    [1, 0, 0, 0] ++ List.replicate 8 0) = ok (some (1, 48)) := by decide
+example : readBAI [66, 65, 73, 1, 0xff, 0xff, 0xff, 0xff] = err := by decide
 
 end Hts.Props.C11
